@@ -217,6 +217,22 @@ def condvar(src):
                 continue
             if any(isinstance(x, (ast.NamedExpr, ast.Await, ast.Yield)) for x in ast.walk(n.test)):
                 continue
+            # keep the edit type-preserving: a test that narrows a type for the checker (None tests, isinstance, bare
+            # truthiness of a name/attribute) cannot be moved into a variable without new mypy errors
+            def narrowing(t):
+                if isinstance(t, ast.Compare):
+                    return any(isinstance(o, (ast.Is, ast.IsNot)) for o in t.ops)
+                if isinstance(t, ast.Call):
+                    return isinstance(t.func, ast.Name) and t.func.id in ("isinstance", "callable", "hasattr", "issubclass")
+                if isinstance(t, (ast.Name, ast.Attribute, ast.Subscript)):
+                    return True
+                if isinstance(t, ast.UnaryOp):
+                    return narrowing(t.operand)
+                if isinstance(t, ast.BoolOp):
+                    return any(narrowing(v) for v in t.values)
+                return False
+            if narrowing(n.test):
+                continue
             ln = lines[n.lineno - 1]
             c0 = _char(lines, n.lineno, n.col_offset)
             if ln[:c0].strip() or not ln[c0:].startswith("if "):
